@@ -210,6 +210,10 @@ func (s *State) key(v ssa.Value, d int) string {
 		if b := BuiltinName(v); b == "len" || b == "cap" {
 			return b + "(" + s.key(v.Call.Args[0], d+1) + ")"
 		}
+		// pure size getters: two calls on the same receiver denote the same value
+		if v.Call.IsInvoke() && len(v.Call.Args) == 0 && pureGetters[v.Call.Method.Name()] {
+			return "pure:" + v.Call.Method.Name() + "(" + s.key(v.Call.Value, d+1) + ")"
+		}
 	case *ssa.Convert:
 		return "cv:" + v.Type().String() + "(" + s.key(v.X, d+1) + ")"
 	case *ssa.BinOp:
@@ -844,3 +848,7 @@ func structNonNil(v ssa.Value) bool {
 	}
 	return ResultCallTo(v, nonNilErrMakers...) != nil
 }
+
+// pureGetters are argument-less interface methods documented to return a constant of the receiver
+// (cipher.AEAD.NonceSize/Overhead, hash.Hash.Size/BlockSize).
+var pureGetters = map[string]bool{"NonceSize": true, "Overhead": true, "Size": true, "BlockSize": true}
